@@ -125,13 +125,14 @@ type Workload struct {
 
 func readRef(st *store.ImmuStore, id uint64) (*txRef, error) {
 	tx := store.NewTx(maxTxEntries, maxKeyLen)
-	if err := st.ReadTx(id, false, tx); err != nil {
+	if err := retry(func() error { return st.ReadTx(id, false, tx) }); err != nil {
 		return nil, err
 	}
 	h := tx.Header()
 	r := &txRef{ID: id, Alh: h.Alh(), PrevAlh: h.PrevAlh, Hdr: h}
 	for _, e := range tx.Entries() {
-		v, err := st.ReadValue(e)
+		var v []byte
+		err := retry(func() (e2 error) { v, e2 = st.ReadValue(e); return })
 		if err != nil {
 			return nil, fmt.Errorf("value of %x: %w", e.Key(), err)
 		}
